@@ -69,10 +69,12 @@ func WithMessageFuture() (agent.AgentOption, MessageFuture) {
 	h := &cbHandler{started: make(chan struct{})}
 
 	cmHandler := &ub.ModelCallbackHandler{
+		OnStart:               h.onChatModelStart,
 		OnEnd:                 h.onChatModelEnd,
 		OnEndWithStreamOutput: h.onChatModelEndWithStreamOutput,
 	}
 	toolHandler := &ub.ToolCallbackHandler{
+		OnStart:               h.onToolStart,
 		OnEnd:                 h.onToolEnd,
 		OnEndWithStreamOutput: h.onToolEndWithStreamOutput,
 	}
@@ -82,7 +84,8 @@ func WithMessageFuture() (agent.AgentOption, MessageFuture) {
 		OnEndFn(h.onGraphEnd).
 		OnEndWithStreamOutputFn(h.onGraphEndWithStreamOutput).
 		OnErrorFn(h.onGraphError).Build()
-	cb := ub.NewHandlerHelper().ChatModel(cmHandler).Tool(toolHandler).Graph(graphHandler).Handler()
+	// a Chain is a graph as well: what runs inside one is not the agent's own model or tool
+	cb := ub.NewHandlerHelper().ChatModel(cmHandler).Tool(toolHandler).Graph(graphHandler).Chain(graphHandler).Handler()
 
 	option := agent.WithComposeOptions(compose.WithCallbacks(cb))
 
@@ -101,14 +104,43 @@ type cbHandler struct {
 	started chan struct{}
 }
 
-// futureDepthKey marks, in the context handed down by the graph handler, how many graphs enclose the current
-// unit: 1 inside the agent's own graph, more inside a graph that a tool (or the model) runs with the context it
-// was given. Only the agent's own graph opens and closes the future, and only its model and tools feed it.
-type futureDepthKey struct{}
+// futureDepthKey marks, in the context handed down by the graph handler, how many graphs (or chains) enclose the
+// current unit: 1 inside the agent's own graph, more inside a graph that a tool (or the model) runs with the
+// context it was given. Only the agent's own graph opens and closes the future, and only its model and tools feed it.
+// The key belongs to ONE future: a run nested in this one (another agent used as a tool) may have a future of its
+// own, which counts from its own graph.
+type futureDepthKey struct{ h *cbHandler }
 
-func futureDepth(ctx context.Context) int {
-	d, _ := ctx.Value(futureDepthKey{}).(int)
+func (h *cbHandler) futureDepth(ctx context.Context) int {
+	d, _ := ctx.Value(futureDepthKey{h}).(int)
 	return d
+}
+
+// futureUnitKey marks how many chat-model / tool executions enclose the current one: the agent's own model and
+// tools are at 1; a model or tool that runs inside one of them (a tool built on a chain or workflow that holds a
+// chat model, a model that wraps another model) is not the agent's.
+type futureUnitKey struct{ h *cbHandler }
+
+func (h *cbHandler) unitDepth(ctx context.Context) int {
+	d, _ := ctx.Value(futureUnitKey{h}).(int)
+	return d
+}
+
+func (h *cbHandler) enterUnit(ctx context.Context) context.Context {
+	return context.WithValue(ctx, futureUnitKey{h}, h.unitDepth(ctx)+1)
+}
+
+// own reports whether the model / tool execution that ends belongs to the agent itself.
+func (h *cbHandler) own(ctx context.Context) bool {
+	return h.futureDepth(ctx) == 1 && h.unitDepth(ctx) == 1
+}
+
+func (h *cbHandler) onChatModelStart(ctx context.Context, _ *callbacks.RunInfo, _ *model.CallbackInput) context.Context {
+	return h.enterUnit(ctx)
+}
+
+func (h *cbHandler) onToolStart(ctx context.Context, _ *callbacks.RunInfo, _ *tool.CallbackInput) context.Context {
+	return h.enterUnit(ctx)
 }
 
 func (h *cbHandler) GetMessages() *Iterator[*schema.Message] {
@@ -126,7 +158,7 @@ func (h *cbHandler) GetMessageStreams() *Iterator[*schema.StreamReader[*schema.M
 func (h *cbHandler) onChatModelEnd(ctx context.Context,
 	_ *callbacks.RunInfo, input *model.CallbackOutput) context.Context {
 
-	if futureDepth(ctx) != 1 {
+	if !h.own(ctx) {
 		return ctx
 	}
 	h.sendMessage(input.Message)
@@ -137,7 +169,7 @@ func (h *cbHandler) onChatModelEnd(ctx context.Context,
 func (h *cbHandler) onChatModelEndWithStreamOutput(ctx context.Context,
 	_ *callbacks.RunInfo, input *schema.StreamReader[*model.CallbackOutput]) context.Context {
 
-	if futureDepth(ctx) != 1 {
+	if !h.own(ctx) {
 		input.Close()
 		return ctx
 	}
@@ -154,7 +186,7 @@ func (h *cbHandler) onChatModelEndWithStreamOutput(ctx context.Context,
 func (h *cbHandler) onToolEnd(ctx context.Context,
 	_ *callbacks.RunInfo, input *tool.CallbackOutput) context.Context {
 
-	if futureDepth(ctx) != 1 {
+	if !h.own(ctx) {
 		return ctx
 	}
 	toolCallID := compose.GetToolCallID(ctx)
@@ -168,7 +200,7 @@ func (h *cbHandler) onToolEnd(ctx context.Context,
 func (h *cbHandler) onToolEndWithStreamOutput(ctx context.Context,
 	_ *callbacks.RunInfo, input *schema.StreamReader[*tool.CallbackOutput]) context.Context {
 
-	if futureDepth(ctx) != 1 {
+	if !h.own(ctx) {
 		input.Close()
 		return ctx
 	}
@@ -186,7 +218,7 @@ func (h *cbHandler) onToolEndWithStreamOutput(ctx context.Context,
 func (h *cbHandler) onGraphError(ctx context.Context,
 	_ *callbacks.RunInfo, err error) context.Context {
 
-	if futureDepth(ctx) != 1 {
+	if h.futureDepth(ctx) != 1 {
 		return ctx
 	}
 	if h.msgs != nil {
@@ -201,7 +233,7 @@ func (h *cbHandler) onGraphError(ctx context.Context,
 func (h *cbHandler) onGraphEnd(ctx context.Context,
 	_ *callbacks.RunInfo, _ callbacks.CallbackOutput) context.Context {
 
-	if futureDepth(ctx) != 1 {
+	if h.futureDepth(ctx) != 1 {
 		return ctx
 	}
 	h.msgs.Close()
@@ -213,7 +245,7 @@ func (h *cbHandler) onGraphEndWithStreamOutput(ctx context.Context,
 	_ *callbacks.RunInfo, out *schema.StreamReader[callbacks.CallbackOutput]) context.Context {
 
 	out.Close()
-	if futureDepth(ctx) != 1 {
+	if h.futureDepth(ctx) != 1 {
 		return ctx
 	}
 	h.sMsgs.Close()
@@ -224,8 +256,8 @@ func (h *cbHandler) onGraphEndWithStreamOutput(ctx context.Context,
 func (h *cbHandler) onGraphStart(ctx context.Context,
 	_ *callbacks.RunInfo, _ callbacks.CallbackInput) context.Context {
 
-	d := futureDepth(ctx)
-	ctx = context.WithValue(ctx, futureDepthKey{}, d+1)
+	d := h.futureDepth(ctx)
+	ctx = context.WithValue(ctx, futureDepthKey{h}, d+1)
 	if d != 0 {
 		return ctx // a graph run inside the agent's run
 	}
@@ -240,8 +272,8 @@ func (h *cbHandler) onGraphStartWithStreamInput(ctx context.Context, _ *callback
 	in *schema.StreamReader[callbacks.CallbackInput]) context.Context {
 
 	in.Close()
-	d := futureDepth(ctx)
-	ctx = context.WithValue(ctx, futureDepthKey{}, d+1)
+	d := h.futureDepth(ctx)
+	ctx = context.WithValue(ctx, futureDepthKey{h}, d+1)
 	if d != 0 {
 		return ctx // a graph run inside the agent's run
 	}
